@@ -32,6 +32,8 @@ def run(ck):
             "empty dict": lambda it: it.new_dict({}, origin="param:metadata"),
             "None": lambda it: None,
             "dict with unknown keys": lambda it: _unknown_dict(it),
+            # a dictionary is a dictionary: keys that are not strings (an epoch number, a tuple) are stored alongside like any other
+            "dict with an integer key": lambda it: it.new_dict({10: VConst(0.5), "note": VConst("x")}, origin="param:metadata"),
         }
         for mname, mb in metas.items():
             inst = "%s.save/metadata=%s" % (cls, mname)
@@ -39,7 +41,13 @@ def run(ck):
                 paths = _save_paths(ck, cls, mb)
                 rets = [p for p in paths if p.outcome == "return"]
                 if not rets:
-                    ck.undecided("C11.R1", inst, ssite, "save never returns in this context: %s" % [str(p.value) for p in paths][:2])
+                    acc = [p for p in paths if p.outcome == "raise" and getattr(p.value, "exc_name", None) in ("TypeError", "AttributeError", "IndexError", "KeyError") and getattr(p.value, "definite_bug", False)]
+                    if acc and len(acc) == len(paths):
+                        ck.violation("C11.R1", inst + ":saves", getattr(acc[0].value, "site", ssite) or ssite,
+                                     "save() with this metadata always fails with %s (%s): the metadata cannot be stored alongside the state" % (acc[0].value.exc_name, getattr(acc[0].value, "msg", "")),
+                                     key="C11.R1|save|%s" % mname)
+                    else:
+                        ck.undecided("C11.R1", inst, ssite, "save never returns in this context: %s" % [str(p.value) for p in paths][:2])
                     continue
                 for p in paths:
                     wr = [e for e in p.effects if "param:metadata" in e.origins and e.kind in ("container", "write", "setattr")]
